@@ -15,7 +15,7 @@ from sim.models import StageModel, STAGE_OPS, reachable_stage_pairs
 PROP = 'C14'
 SCENE_CLASSES = ['merge', 'split', 'merge+split', 'merge', 'merge+split', 'no-hit', 'single-hit',
                  'two-far', 'demo-like', 'msa-crop', 'sparse', 'multi-hit', 'two-valued',
-                 'asym-split', 'high-close', 'borderline', 'rng-sensitive']
+                 'asym-split', 'high-close', 'borderline', 'rng-sensitive', 'multi-merge']
 HIST_PER_RUN = 12
 MAX_LEN = 14
 
